@@ -84,14 +84,18 @@ func VerifHarness_C23_StreamUint() {
 func VerifHarness_C07_StreamList() {
 	n := verifConfig("n")
 	buf := verifBuf(n)
-	s := NewStream(bytes.NewReader(buf), 0)
-	if _, err := s.List(); err != nil {
+	r := bytes.NewReader(buf)
+	s := NewStream(r, 0)
+	size, err := s.List()
+	verifAssert("C07:list-size-within-buffer", err != nil || size <= uint64(n))
+	if err != nil {
 		return
 	}
 	if _, err := s.Bytes(); err == nil {
 		s.Bytes()
 	}
 	s.ListEnd()
+	verifAssert("C07:reader-not-overrun", r.Len() >= 0 && r.Len() <= n)
 }
 
 // C23: encode -> decode round trip of the integer primitive over all uint64.
